@@ -13,7 +13,7 @@ RULE = ("data elements of all kinds (keywords MINimum/MAXimum/DEFault/UP/DOWN in
         "order of the builder calls (max/min/default permutations, repeated calls), incl. min = max, inverted bounds, NaN and "
         "infinite bounds.  Compared with the model and with the rule recomputed in Python; every successfully resolved plain "
         "value is checked to lie within [min,max].  non-trivial = the element converted to a NumericValue")
-ASSUMPTIONS = ["float comparisons are IEEE-754 partial order (SpecFloat.SFleb)", "unit quantities: covered through the generic (polymorphic) theorem; the correspondence stream uses integers and floats"]
+ASSUMPTIONS = ["float comparisons are IEEE-754 partial order (SpecFloat.SFleb)", "unit quantities (Time, Frequency over f32): keywords and bare numbers are compared with the model instantiated at f32 (new::<base unit> is the identity on the stored value); suffixed elements are C18's"]
 MISMATCH_WHY = "NumericValue conversion / resolution differs from the proved model (C17)"
 INT = {"i8": (-128, 127, "I8"), "u8": (0, 255, "U8"), "i16": (-2**15, 2**15 - 1, "I16"), "u16": (0, 2**16 - 1, "U16"), "i32": (-2**31, 2**31 - 1, "I32"),
        "u32": (0, 2**32 - 1, "U32"), "i64": (-2**63, 2**63 - 1, "I64"), "u64": (0, 2**64 - 1, "U64")}
@@ -21,6 +21,9 @@ KW = [b"MAX", b"MAXimum", b"maximum", b"MAXIMUM", b"MaXiMuM", b"MIN", b"MINIMUM"
       b"MAXI", b"MAXIMU", b"MAXIMUMM", b"MINI", b"DEFA", b"DEFAUL", b"DEFAULTS", b"U", b"UPP", b"DOW", b"DOWNN", b"UP1", b"MAX1", b"DEF1", b"MA", b"INF", b"NINF", b"NAN", b"ON", b"X", b"MAXa", b"DEFa", b"UPa", b"UP_", b"DOWNa", b"MAXIMUMa", b"NANa"]
 KW = KW + [x for k in (b"MAXimum", b"MINimum", b"DEFault", b"UP", b"DOWN") for x in keyword_near_misses(k)]
 OTHER = [b"'str'", b"#13abc", b"(1)", b"#HFF", b"1 V", b"1e3 HZ", b"1.5", b"-0.5", b"1e400", b"0.0"]
+
+
+QTY = ("qtime", "qfreq")
 
 
 def f2b(v, w): return struct.unpack("<I", struct.pack("<f", v))[0] if w == 32 else struct.unpack("<Q", struct.pack("<d", v))[0]
@@ -36,24 +39,28 @@ def rand_ops(rng, ty):
         lo, hi, _ = INT[ty]
         pick = lambda: str(rng.choice([lo, hi, 0, 1, 10, rng.randint(lo, hi), rng.randint(max(lo, -50), min(hi, 50))]))
     else:
-        w = 32 if ty == "f32" else 64
+        w = 32 if ty in ("f32",) + QTY else 64
         pick = lambda: "%0*x" % (w // 4, f2b(rng.choice([0.0, -0.0, 1.0, -1.0, 10.0, 2.5, -2.5, 1e6, float("inf"), float("-inf"), float("nan") if rng.random() < 0.3 else 3.0,
                                                          rng.uniform(-100, 100)]), w) if True else 0)
     n = rng.choice([0, 1, 2, 3, 3, 3, 4])
-    return [rng.choice("Mmd") + pick() for _ in range(n)]
+    kinds = rng.choice(["Mmd", "Mmd", "Md", "md", "M", "m"])      # often leave a bound at the type's own limit
+    return [rng.choice(kinds) + pick() for _ in range(n)]
 
 
 def corpus():
     return [mk("f32", b"NAN", ["M41200000", "mc1200000"]), mk("f64", b"NAN", []), mk("i32", b"DEF", ["d3", "M10", "m-10"]), mk("i32", b"DEFAULT", ["M10", "d3", "m-10"]),
             mk("i32", b"MAXIMUM", ["M10", "m-10"]), mk("i32", b"MINIMUM", ["M10", "m-10"]), mk("u8", b"DEFAULT", ["M10", "m1", "d5"]), mk("i32", b"10", ["M10", "m-10"]),
-            mk("i32", b"11", ["M10", "m-10"]), mk("i32", b"-10", ["M10", "m-10"]), mk("i32", b"5", ["M5", "m5"]), mk("i32", b"UP", []), mk("i32", b"DOWN", ["d1"]), mk("f32", b"INF", ["M7f800000"])]
+            mk("i32", b"11", ["M10", "m-10"]), mk("qtime", b"MIN", ["M41200000"]), mk("qfreq", b"2.5", ["M447a0000"]), mk("qfreq", b"MAX", ["mc1200000"]), mk("qtime", b"DEF", ["d40000000", "M41200000"]),
+            mk("i8", b"MIN", ["M10"]), mk("u16", b"MAX", ["m3"]), mk("f64", b"MIN", []), mk("f32", b"MAX", []), mk("i32", b"-10", ["M10", "m-10"]), mk("i32", b"5", ["M5", "m5"]), mk("i32", b"UP", []), mk("i32", b"DOWN", ["d1"]), mk("f32", b"INF", ["M7f800000"])]
 
 
 def generate(rng, tier):
     n = 60 if tier == "quick" else 800
     out = []
-    for ty in list(INT) + ["f32", "f64"]:
+    for ty in list(INT) + ["f32", "f64", "qtime", "qfreq"]:
         toks = list(KW) + list(OTHER)
+        if ty in QTY:    # unit quantities: keywords and bare numbers behave as the f32 they are stored in
+            toks = [t for t in KW if t.upper() not in (b"INF", b"NINF", b"NAN")] + [b"'str'", b"1.5", b"-0.5", b"0.0", b"1e400", b"-3e38", b"3.5e38"]
         for _ in range(n):
             if ty in INT:
                 lo, hi, _ = INT[ty]
@@ -78,7 +85,7 @@ def coq_term(c):
     if ty in INT:
         ops = ["%s %s" % ({"M": "BMax", "m": "BMin", "d": "BDefault"}[o[0]], coq_Z(int(o[1:]))) for o in c["ops"]]
         return "run_nv_int %s %s %s" % (INT[ty][2], coq_bytes(c["tok"]), coq_list(ops))
-    ft = "F32" if ty == "f32" else "F64"
+    ft = "F32" if ty in ("f32",) + QTY else "F64"
     ops = ["%s (sf_of_bits %s %d%%Z)" % ({"M": "BMax", "m": "BMin", "d": "BDefault"}[o[0]], ft, int(o[1:], 16)) for o in c["ops"]]
     return "run_nv_float %s %s %s" % (ft, coq_bytes(c["tok"]), coq_list(ops))
 
@@ -105,7 +112,7 @@ def impl_oracle(c, r):
     if not want and var in ("MAX", "MIN", "DEF", "UP", "DOWN"): return "%s is not a numeric_value keyword but was read as %s" % (c["tok"].decode(), var)
     # configuration after the calls in order
     isint = ty in INT
-    w = 32 if ty == "f32" else 64
+    w = 32 if ty in ("f32",) + QTY else 64
     val = (lambda s: int(s)) if isint else (lambda s: b2f(int(s, 16), w))
     if isint: mx, mn = INT[ty][1], INT[ty][0]
     else: mx = b2f((0x7f7fffff if w == 32 else 0x7fefffffffffffff), w); mn = -mx
